@@ -323,6 +323,35 @@ def check_suppression(check, an: Analysis, rule: str):
                        analysed=len(paths))
 
 
+def check_foreign_signal_leaves_exit(check, an: Analysis, rule: str):
+    """
+    A signal that is not the scope's own -- the cancellation of the task that owns the
+    block, a forced close -- and that arrives while a regularly left block waits in
+    ``__aexit__`` leaves ``__aexit__`` as an exception on every path (itself, or a
+    privileged / concurrent failure of the children in its place): ``__aexit__`` was
+    called without an exception, so a plain return of any value would drop the signal
+    """
+    for recv in scope_receivers(an):
+        callee = an.callee(recv, '__aexit__')
+        label = recv.rsplit('.', 1)[-1]
+        n, bad = 0, None
+        for path in an.paths(callee, 'none'):
+            arrived = [(i, e) for i, e in enumerate(path.events)
+                       if e.kind == 'susp' and e.depth == 0
+                       and e.data.get('exit') in (CANCEL_TASK, GENEXIT)]
+            if not arrived:
+                continue
+            n += 1
+            if path.kind != 'raise':
+                bad = bad or (path, arrived[0][0])
+        check.instance(rule, '__aexit__[%s]:foreign-signal-leaves-as-exception' % label,
+                       bad is None and n > 0, where_fn(callee.fn),
+                       'a cancellation of the owning task or a forced close that arrives '
+                       'during a regular exit is never turned into a normal return (%d '
+                       'paths)' % n, path=rules.path_lines(*bad) if bad else None,
+                       analysed=n)
+
+
 def check_disable_interrupts(check, an: Analysis, rule: str):
     """
     whatever class the scope has, every way through its ``_disable_interrupts`` (the first
